@@ -87,6 +87,13 @@ struct Ctx {
   }
 };
 
+// an argument for SharedPromise::Set whose conversion to the value type throws
+struct ThrowerPay {
+  operator Pay() const {  // NOLINT
+    throw TExc{1};
+  }
+};
+
 void Check(Ctx& cx, const R& r) {
   if (!cx.set_begun) {
     cx.Err("observer saw a result before the SharedPromise began to be fulfilled");
@@ -374,7 +381,7 @@ class Shared final : public vf::Family {
       Case c;
       c.recw = 3;
       const int k = vf::Pick(2, 5);
-      c.hdr = {vf::Pick(0, 8), k, vf::Pick(0, 2), vf::Pick(0, 8)};
+      c.hdr = {vf::Pick(0, 8), k, vf::Pick(0, 2) + (vf::Pick(0, 8) == 0 ? 2 : 0), vf::Pick(0, 8)};
       const int n = vf::Pick(1, 13);
       for (int i = 0; i < n; ++i) {
         c.prog.push_back(vf::Pick(0, k));
@@ -406,7 +413,7 @@ class Shared final : public vf::Family {
   std::string Describe(const Case& c) const final {
     const int k = 2 + (c.H(1) + 2) % 3;
     std::string s = std::string("producer=") + kProdName[ProdKind(c)] + " pre_set_ops=" + std::to_string(c.H(3) % 8) +
-                    " observers=" + std::to_string(k) + " exec=" + (c.H(2) % 2 == 0 ? "inline-tagged" : "queue-fiber") +
+                    " observers=" + std::to_string(k) + " exec=" + (c.H(2) % 2 == 0 ? "inline-tagged" : "queue-fiber") + (c.H(2) / 2 % 2 == 1 ? " first-Set-throws" : "") +
                     " ops=[";
     for (std::size_t i = 0; i < c.Records(); ++i) {
       const int* r = c.Rec(i);
@@ -446,6 +453,7 @@ class Shared final : public vf::Family {
     const int k = 2 + (c.H(1) + 2) % 3;
     const int ek = c.H(2) % 2;
     const int pre = c.H(3) % 8;
+    const bool throws_first = c.H(2) / 2 % 2 == 1;
     std::vector<std::vector<Op>> prog(static_cast<std::size_t>(k));
     for (std::size_t i = 0; i < c.Records(); ++i) {
       const int* r = c.Rec(i);
@@ -469,7 +477,7 @@ class Shared final : public vf::Family {
         for (auto& ops : prog) {
           ts.emplace_back([&cx, sf = sf0, &sf0 = sf0, &ops = ops, &e]() mutable { Observer(cx, std::move(sf), sf0, ops, e); });
         }
-        ts.emplace_back([&cx, sp = std::move(sp), pre]() mutable {
+        ts.emplace_back([&cx, sp = std::move(sp), pre, throws_first]() mutable {
           vf::Point();
           SF split;
           yaclib::Future<Pay, TErr> shared_f;
@@ -487,6 +495,22 @@ class Shared final : public vf::Family {
           }
           vf::Point();
           cx.set_begun = true;
+          if (throws_first) {
+            // a Set whose value construction throws must leave the SharedPromise valid (it is then fulfilled or dropped)
+            bool thrown = false;
+            try {
+              std::move(sp).Set(ThrowerPay{});
+            } catch (const TExc&) {
+              thrown = true;
+            }
+            if (!thrown) {
+              cx.Err("Set with a throwing value constructor did not propagate the exception");
+            } else if (!sp.Valid()) {
+              cx.Err("a Set that threw left the SharedPromise invalid: observers can never be released");
+              return;
+            }
+            vf::Point();
+          }
           switch (cx.pk) {
             case kSetValue:
               std::move(sp).Set(Pay{42});
